@@ -132,6 +132,11 @@ def run(ctx: Ctx):
         ctx.case("cold", [sc["seed"], sc["nsteps"], sc["period"], sc["numrec"], sc["layout"]], sample=dict(case, log_head=g["log"][:12]))
         inits, closes, calls, decoys = parse(g["log"])
         bad = []
+        if "error" in w:
+            # the model refuses the set-up: the program must refuse it too, and nothing else is compared
+            if g["status"] == "ok":
+                ctx.violation("tie-broken", "cold", case, dict(model=w, implementation="ok"))
+            continue
         if g["status"] != "ok":
             bad.append(f"run ended with {g['status']}")
         if decoys:
